@@ -3201,8 +3201,8 @@ where
 mod ansi_colours;
 
 /// Trace hooks for verification (only with `--cfg html2text_verif`): one event per
-/// `do_render_node` call, carrying the kind of the node and a scalar projection of
-/// the renderer state at that point.  Off unless a recorder is installed.
+/// `do_render_node` call, carrying the kind of the node, a scalar projection of
+/// the renderer state at that point and the node's size estimate.  Off unless a recorder is installed.
 #[cfg(html2text_verif)]
 #[doc(hidden)]
 pub mod verif {
@@ -3211,7 +3211,7 @@ pub mod verif {
     use std::cell::RefCell;
 
     thread_local! {
-        static EVENTS: RefCell<Option<Vec<(&'static str, [i64; 17])>>> = const { RefCell::new(None) };
+        static EVENTS: RefCell<Option<Vec<(&'static str, [i64; 20])>>> = const { RefCell::new(None) };
     }
 
     /// Start recording on this thread.
@@ -3220,7 +3220,7 @@ pub mod verif {
     }
 
     /// Stop recording and return what was recorded.
-    pub fn take() -> Vec<(&'static str, [i64; 17])> {
+    pub fn take() -> Vec<(&'static str, [i64; 20])> {
         EVENTS.with(|e| e.borrow_mut().take().unwrap_or_default())
     }
 
@@ -3255,7 +3255,15 @@ pub mod verif {
                     ListItem(_) => "ListItem",
                     Sup(_) => "Sup",
                 };
-                v.push((kind, renderer.verif_probe()));
+                // the renderer state, then the node's cached size estimate (-1: none)
+                let mut p = [-1i64; 20];
+                p[..17].copy_from_slice(&renderer.verif_probe());
+                if let Some(est) = node.size_estimate.get() {
+                    p[17] = est.size.min(i32::MAX as usize) as i64;
+                    p[18] = est.min_width.min(i32::MAX as usize) as i64;
+                    p[19] = est.prefix_size.min(i32::MAX as usize) as i64;
+                }
+                v.push((kind, p));
             }
         });
     }
